@@ -94,6 +94,7 @@ pub struct Stats {
     pub c04: SigBag,
     pub c20: SigBag,
     pub poke_histories: u64,
+    pub first_touch_histories: u64,
     pub emergency_drains: u64,
     pub max_l1a: usize,
     pub max_qc: usize,
@@ -137,6 +138,12 @@ pub fn run_history(cfg: &TeCfg, hist: &[TOp], st: &mut Stats) {
 /// read that finds a stale copy scrubs it — so reading after every step hides whatever needs a
 /// stale copy to survive until a later drain. Both modes are explored.
 pub fn run_history_mode(cfg: &TeCfg, hist: &[TOp], st: &mut Stats, quiet: bool) {
+    run_history_first(cfg, hist, st, quiet, 0)
+}
+
+/// `first`: the read flavour issued first for every id (te::check_reads_first) — the first-touch
+/// passes of quiet histories that contain an adversarial poke.
+pub fn run_history_first(cfg: &TeCfg, hist: &[TOp], st: &mut Stats, quiet: bool, first: u8) {
     st.histories += 1;
     let rt = paused_runtime();
     let te = Te::new(cfg);
@@ -160,7 +167,7 @@ pub fn run_history_mode(cfg: &TeCfg, hist: &[TOp], st: &mut Stats, quiet: bool) 
         if te.engine.stats().hot_tier_emergency_evictions > emerg_before {
             st.emergency_drains += 1;
         }
-        let replay = |detail: &str| json!({"engine":"seqmc","check":"C04","cfg":cfg,"history":hist,"step":i,"quiet":quiet,"detail":detail});
+        let replay = |detail: &str| json!({"engine":"seqmc","check":"C04","cfg":cfg,"history":hist,"step":i,"quiet":quiet,"first_read_flavour":first,"detail":detail});
         if let Err(e) = r {
             let retval_only = e.contains(" returned ");
             if !(retval_only && poked_hot) {
@@ -216,7 +223,7 @@ pub fn run_history_mode(cfg: &TeCfg, hist: &[TOp], st: &mut Stats, quiet: bool) 
         if quiet && i + 1 != hist.len() {
             continue;
         }
-        match check_reads(&te, &model, &ids) {
+        match check_reads_first(&te, &model, &ids, first) {
             Ok(n) => st.reads += n,
             Err((flavour, detail)) => {
                 let kind = if detail.contains("= None") {
@@ -226,7 +233,7 @@ pub fn run_history_mode(cfg: &TeCfg, hist: &[TOp], st: &mut Stats, quiet: bool) 
                 } else {
                     "wrong-content"
                 };
-                st.c04.push((format!("C04|{flavour}|{kind}|after={}|poked-hot={}", op_kind(op), poked_hot), replay(&detail)));
+                st.c04.push((format!("C04|{flavour}|{kind}|after={}|poked-hot={}{}", op_kind(op), poked_hot, if first != 0 { "|first-touch" } else { "" }), replay(&detail)));
                 break;
             }
         }
@@ -343,7 +350,19 @@ fn depth_for(tier: &str) -> usize {
     std::env::var("C04_DEPTH").ok().and_then(|s| s.parse().ok()).unwrap_or(if tier == "thorough" { 4 } else { 3 })
 }
 
-pub fn explore(tier: &str) -> (Stats, Vec<TeCfg>, usize, usize, Vec<Value>) {
+/// Quiet histories that contain an adversarial poke are replayed once per vector- or
+/// metadata-reading flavour other than `query`, with that flavour touching every id first.
+fn first_touch_passes(cfg: &TeCfg, hist: &[TOp], st: &mut Stats, enabled: bool) {
+    if !enabled || !hist.iter().any(|o| o.is_poke()) {
+        return;
+    }
+    for f in [1u8, 2, 3, 5] {
+        st.first_touch_histories += 1;
+        run_history_first(cfg, hist, st, true, f);
+    }
+}
+
+pub fn explore(tier: &str, first_touch: bool) -> (Stats, Vec<TeCfg>, usize, usize, Vec<Value>) {
     let depth = depth_for(tier);
     let cfgs = grid(tier);
     let nletters = alphabet(2, true).len();
@@ -361,11 +380,13 @@ pub fn explore(tier: &str) -> (Stats, Vec<TeCfg>, usize, usize, Vec<Value>) {
             let hist: Vec<TOp> = seq.iter().map(|&i| alpha[i].clone()).collect();
             run_history(cfg, &hist, &mut st);
             run_history_mode(cfg, &hist, &mut st, true);
+            first_touch_passes(cfg, &hist, &mut st, first_touch);
         }
         for len in 2..depth {
             for seq in sequences(alpha.len(), len, &[*first]) {
                 let hist: Vec<TOp> = seq.iter().map(|&i| alpha[i].clone()).collect();
                 run_history_mode(cfg, &hist, &mut st, true);
+                first_touch_passes(cfg, &hist, &mut st, first_touch);
             }
         }
         st
@@ -379,6 +400,7 @@ pub fn explore(tier: &str) -> (Stats, Vec<TeCfg>, usize, usize, Vec<Value>) {
         tot.c04.merge(s.c04);
         tot.c20.merge(s.c20);
         tot.poke_histories += s.poke_histories;
+        tot.first_touch_histories += s.first_touch_histories;
         tot.emergency_drains += s.emergency_drains;
         tot.max_l1a = tot.max_l1a.max(s.max_l1a);
         tot.max_qc = tot.max_qc.max(s.max_qc);
@@ -397,7 +419,7 @@ pub fn run(prop: &str, tier: &str, replay: Option<&str>) -> i32 {
     if let Some(p) = replay {
         return run_replay(prop, p);
     }
-    let (tot, cfgs, depth, nletters, samples) = explore(tier);
+    let (tot, cfgs, depth, nletters, samples) = explore(tier, prop == "C04");
     let is20 = prop == "C20";
     let mut ev = Evidence::new(prop, tier, "model_checking");
     let mut rep = Reporter::new(prop);
@@ -437,7 +459,8 @@ pub fn run(prop: &str, tier: &str, replay: Option<&str>) -> i32 {
         ev.set("emergency_drains_triggered", tot.emergency_drains);
         ev.assume("evicted/drained content staying readable is the C04 read oracle, which runs in the same exploration");
     } else {
-        ev.set("rule", format!("all {nletters}^{depth} TieredEngine histories per configuration, each run twice: reading after EVERY step, and quiet (reads only after the last step, for every length 2..{depth}, because a read scrubs the stale copy it finds and would mask defects that need it to survive until a drain); at each read point every read flavour (query, get_document_with_metadata, get_embedding_cache_aware, get_metadata, exists, bulk_query with/without embeddings) is issued for ids {{1,2,3}} and compared with the reference map; drain and tick steps must leave the canonical store dump unchanged; non-trivial = histories containing an adversarial poke (stale/corrupt L1a or hot-tier entries planted through harness handles)"));
+        ev.set("first_touch_histories", tot.first_touch_histories);
+        ev.set("rule", format!("all {nletters}^{depth} TieredEngine histories per configuration, each run twice (and every quiet history that contains an adversarial poke four more times, with get_document_with_metadata / get_embedding_cache_aware / get_metadata / bulk_query as the FIRST reader of every id instead of query, since the first read scrubs what it finds): reading after EVERY step, and quiet (reads only after the last step, for every length 2..{depth}, because a read scrubs the stale copy it finds and would mask defects that need it to survive until a drain); at each read point every read flavour (query, get_document_with_metadata, get_embedding_cache_aware, get_metadata, exists, bulk_query with/without embeddings) is issued for ids {{1,2,3}} and compared with the reference map; drain and tick steps must leave the canonical store dump unchanged; non-trivial = histories containing an adversarial poke (stale/corrupt L1a or hot-tier entries planted through harness handles)"));
         ev.set("reads_checked", tot.reads);
         ev.set("emergency_drains_triggered", tot.emergency_drains);
         ev.assume("background task driven on a paused tokio clock (flush_interval 1 ns) so one TICK = one coherence audit + threshold drain");
@@ -472,7 +495,7 @@ fn run_replay(prop: &str, path: &str) -> i32 {
     let cfg: TeCfg = serde_json::from_value(c["cfg"].clone()).unwrap();
     let hist: Vec<TOp> = serde_json::from_value(c["history"].clone()).unwrap();
     let mut st = Stats::default();
-    run_history_mode(&cfg, &hist, &mut st, c["quiet"].as_bool().unwrap_or(false));
+    run_history_first(&cfg, &hist, &mut st, c["quiet"].as_bool().unwrap_or(false), c["first_read_flavour"].as_u64().unwrap_or(0) as u8);
     let bag = if prop == "C20" { &st.c20 } else { &st.c04 };
     if let Some((s, r)) = bag.any_first() {
         println!("replay: reproduced {s}: {}", r.get("detail").or(r.get("what")).unwrap_or(&Value::Null));
